@@ -1,5 +1,5 @@
 (* C07 — search, split and count equal the brute-force definition (statements; see SearchProofs.v). *)
-From BS Require Import Prims BitsCore Search SearchProofs FastPath SearchTop.
+From BS Require Import Prims BitsCore Search SeqProofs SearchProofs FastPath SearchTop SplitProofs ReplaceProofs.
 From Coq Require Import String.
 Open Scope Z_scope.
 
@@ -46,6 +46,31 @@ Theorem C07_findall_sound_and_complete : forall d p start stop ba s e l,
   p <> [] -> validate_slice d start stop = Ok (s, e) -> bs_findall false d p start stop None ba = Ok l ->
   forall q, In q l <-> (s <= q /\ q + zlen p <= e /\ sub d q (q + zlen p) = p /\ (ba = true -> q mod 8 = 0)).
 Proof. exact findall_sound_complete. Qed.
+(* split(delimiter): the pieces partition the window - they concatenate to d[start:end] - and every piece after the first begins with
+   the delimiter (successive non-overlapping occurrences from the left) *)
+Theorem C07_split_partitions_the_window : forall d p start stop ba s e, p <> [] -> validate_slice d start stop = Ok (s, e) ->
+  exists pieces, bs_split false d p start stop None ba = Ok pieces /\ List.concat pieces = sub d s e.
+Proof. exact split_partitions_window. Qed.
+Theorem C07_split_pieces_begin_with_the_delimiter : forall d p start stop ba s e pieces, p <> [] -> validate_slice d start stop = Ok (s, e) ->
+  bs_split false d p start stop None ba = Ok pieces ->
+  match pieces with [] => False | _ :: rest => Forall (fun x => firstn (List.length p) x = p) rest end.
+Proof. exact split_pieces_begin_with_delimiter. Qed.
+(* replace(old, new, start, end, count): the replaced positions are occurrences of `old` inside the window with the alignment asked for,
+   increasing and non-overlapping (each at least |old| after the previous one), at most `count`; the result is `new` spliced in at exactly those
+   positions and the return value their number *)
+Theorem C07_replace : forall d old new_ start stop count ba s e, old <> [] -> count_ok count -> validate_slice d start stop = Ok (s, e) ->
+  exists ps,
+    ba_replace false d old new_ start stop count ba = Ok ((if zlen ps =? 0 then d else splice d new_ (zlen old) 0 ps), zlen ps) /\
+    chain (zlen old) s e ps /\
+    (forall x, In x ps -> In x (spec_matches d old s e ba)) /\
+    (match count with Some c => zlen ps <= c | None => True end).
+Proof. exact replace_spec. Qed.
+Theorem C07_replace_length_and_frame : forall d old new_ start stop count ba s e r n, old <> [] -> count_ok count -> validate_slice d start stop = Ok (s, e) ->
+  ba_replace false d old new_ start stop count ba = Ok (r, n) ->
+  zlen r = zlen d + n * (zlen new_ - zlen old) /\ (exists X, r = sub d 0 s ++ X) /\ (exists X, r = X ++ sub d e (zlen d)).
+Proof. exact replace_length_and_frame. Qed.
+Example C07_replace_nonvacuous : ba_replace false (of01 "1110110"%string) (of01 "11"%string) (of01 "00"%string) None None (Some 2) false = Ok (of01 "0010000"%string, 2).
+Proof. vm_compute. reflexivity. Qed.
 Example C07_overlapping_byte_matches : findall_fast (of01 "000000000000000000000000"%string) (of01 "0000000000000000"%string) 0 24 = Ok [0; 8].
 Proof. vm_compute. reflexivity. Qed.
 Print Assumptions C07_general_path_is_brute_force.
@@ -59,3 +84,7 @@ Print Assumptions C07_find.
 Print Assumptions C07_rfind.
 Print Assumptions C07_contains.
 Print Assumptions C07_findall_sound_and_complete.
+Print Assumptions C07_split_partitions_the_window.
+Print Assumptions C07_split_pieces_begin_with_the_delimiter.
+Print Assumptions C07_replace.
+Print Assumptions C07_replace_length_and_frame.
